@@ -11,7 +11,7 @@ Inductive optok :=
 | OAdd | OSub | OMul | ODiv | OFloorDiv | OMod | OPow | OTilde
 | OEq | ONe | OLt | OLe | OGt | OGe
 | OLParen | ORParen | OLBracket | ORBracket | OLBrace | ORBrace
-| ODot | OComma | OColon | OPipe | OAssign.
+| ODot | OComma | OColon | OPipe | OAssign | OSemicolon.
 
 Inductive tok :=
 | KName (s : str)
@@ -22,10 +22,10 @@ Inductive tok :=
 
 Inductive pres (A : Type) :=
 | ROk (a : A) (rest : list tok)
-| RErr                 (* TemplateSyntaxError *)
+| RErr (at_ : list tok)   (* TemplateSyntaxError; the suffix whose first token is blamed (its line is the error line) *)
 | RUnsup               (* syntax outside the modelled AST (floats, *args, filter kwargs, slice tuples) *)
 | RFuel.
-Arguments ROk {A} _ _. Arguments RErr {A}. Arguments RUnsup {A}. Arguments RFuel {A}.
+Arguments ROk {A} _ _. Arguments RErr {A} _. Arguments RUnsup {A}. Arguments RFuel {A}.
 
 Definition k_if : str := [105; 102]%N.
 Definition k_else : str := [101; 108; 115; 101]%N.
@@ -51,7 +51,7 @@ Definition is_op (o : optok) (t : list tok) : bool :=
       | OTilde, OTilde | OEq, OEq | ONe, ONe | OLt, OLt | OLe, OLe | OGt, OGt | OGe, OGe
       | OLParen, OLParen | ORParen, ORParen | OLBracket, OLBracket | ORBracket, ORBracket
       | OLBrace, OLBrace | ORBrace, ORBrace | ODot, ODot | OComma, OComma | OColon, OColon
-      | OPipe, OPipe | OAssign, OAssign => true
+      | OPipe, OPipe | OAssign, OAssign | OSemicolon, OSemicolon => true
       | _, _ => false
       end
   | _ => false
@@ -71,11 +71,11 @@ Definition math2_of_tok (o : optok) : option binop :=
 Inductive sub := SubE (e : expr) | SubSlice (lo hi st : option expr).
 
 Definition bindp {A B} (r : pres A) (f : A -> list tok -> pres B) : pres B :=
-  match r with ROk a rest => f a rest | RErr => RErr | RUnsup => RUnsup | RFuel => RFuel end.
+  match r with ROk a rest => f a rest | RErr a => RErr a | RUnsup => RUnsup | RFuel => RFuel end.
 Notation "'let*' ( x , r ) := m 'in' f" := (bindp m (fun x r => f)) (at level 200, x name, r name).
 
 Definition expect (o : optok) (ts : list tok) : pres unit :=
-  if is_op o ts then ROk tt (tl ts) else RErr.
+  if is_op o ts then ROk tt (tl ts) else RErr ts.
 
 (* is_tuple_end: the variable end (no token left) or a closing parenthesis *)
 Definition tuple_end (ts : list tok) : bool :=
@@ -113,7 +113,7 @@ Record kit := {
   p_subscribed : (list tok) -> pres sub;
   p_call : (expr) -> (list tok) -> pres expr;
   p_call_args : (list tok) -> pres (list expr * list (str * expr));
-  p_args_loop : (list expr) -> (list (str * expr)) -> (bool) -> (list tok) -> pres (list expr * list (str * expr));
+  p_args_loop : (list tok) -> (list expr) -> (list (str * expr)) -> (bool) -> (list tok) -> pres (list expr * list (str * expr));
   p_dotted : (str) -> (list tok) -> pres str;
   p_filter : (expr) -> (list tok) -> pres expr;
   p_test : (expr) -> (list tok) -> pres expr;
@@ -151,7 +151,7 @@ Definition kit0 : kit := {|
   p_subscribed := fun _ => RFuel;
   p_call := fun _ _ => RFuel;
   p_call_args := fun _ => RFuel;
-  p_args_loop := fun _ _ _ _ => RFuel;
+  p_args_loop := fun _ _ _ _ _ => RFuel;
   p_dotted := fun _ _ => RFuel;
   p_filter := fun _ _ => RFuel;
   p_test := fun _ _ => RFuel;
@@ -255,7 +255,7 @@ Definition kit_step (KK : kit) : kit := {|
         let* (_u, r3) := expect ORParen r2 in ROk e r3
     | KOp OLBracket :: r => let* (es, r2) := p_items KK ORBracket [] r in ROk (EList es) r2
     | KOp OLBrace :: r => let* (kvs, r2) := p_pairs KK [] r in ROk (EDict kvs) r2
-    | _ => RErr
+    | _ => RErr ts
     end;
   p_strings := fun acc ts =>
     match ts with
@@ -302,7 +302,7 @@ Definition kit_step (KK : kit) : kit := {|
     match ts with
     | KOp ODot :: KName s :: r => ROk (EGetattr node s) r
     | KOp ODot :: KInt z :: r => ROk (EGetitem node (EConst (VInt z))) r
-    | KOp ODot :: _ => RErr
+    | KOp ODot :: _ => RErr (tl ts)
     | KOp OLBracket :: r =>
         let* (args, r2) := p_subs KK [] r in
         match args with
@@ -319,7 +319,7 @@ Definition kit_step (KK : kit) : kit := {|
             | None => RUnsup
             end
         end
-    | _ => RErr
+    | _ => RErr ts
     end;
   p_subs := fun acc ts =>
     if is_op ORBracket ts then ROk acc (tl ts)
@@ -345,8 +345,8 @@ Definition kit_step (KK : kit) : kit := {|
   p_call := fun node ts =>
     let* (ak, r) := p_call_args KK ts in ROk (ECall node (fst ak) (snd ak)) r;
   p_call_args := fun ts =>
-    let* (_u, r) := expect OLParen ts in p_args_loop KK [] [] false r;
-  p_args_loop := fun args kw require_comma ts =>
+    let* (_u, r) := expect OLParen ts in p_args_loop KK ts [] [] false r;
+  p_args_loop := fun lp args kw require_comma ts =>
     if is_op ORParen ts then ROk (args, kw) (tl ts)
     else
       let* (_u, r) := (if require_comma then expect OComma ts else ROk tt ts) in
@@ -355,17 +355,17 @@ Definition kit_step (KK : kit) : kit := {|
       else
         match r with
         | KName key :: KOp OAssign :: r2 =>
-            let* (v, r3) := p_cond KK r2 in p_args_loop KK args (kw ++ [(key, v)]) true r3
+            let* (v, r3) := p_cond KK r2 in p_args_loop KK lp args (kw ++ [(key, v)]) true r3
         | _ =>
             match kw with
-            | [] => let* (v, r3) := p_cond KK r in p_args_loop KK (args ++ [v]) kw true r3
-            | _ => RErr
+            | [] => let* (v, r3) := p_cond KK r in p_args_loop KK lp (args ++ [v]) kw true r3
+            | _ => RErr lp
             end
         end;
   p_dotted := fun name ts =>
     match ts with
     | KOp ODot :: KName s :: r => p_dotted KK (name ++ [46%N] ++ s) r
-    | KOp ODot :: _ => RErr
+    | KOp ODot :: _ => RErr (tl ts)
     | _ => ROk name ts
     end;
   p_filter := fun node ts =>
@@ -376,7 +376,7 @@ Definition kit_step (KK : kit) : kit := {|
           let* (ak, r3) := p_call_args KK r2 in
           match snd ak with [] => ROk (EFilter node name (fst ak)) r3 | _ => RUnsup end
         else ROk (EFilter node name []) r2
-    | _ => RErr
+    | _ => RErr (tl ts)
     end;
   p_test := fun node ts =>
     let negated := is_kw k_not ts in
@@ -397,14 +397,14 @@ Definition kit_step (KK : kit) : kit := {|
                | _ => false
                end in
              if starts_arg then
-               if is_kw k_is r2 then RErr
+               if is_kw k_is r2 then RErr r2
                else
                  let* (a, r3) := p_primary KK r2 in
                  let* (a2, r4) := p_postfix KK a r3 in ROk [a2] r4
              else ROk [] r2) in
         let t := ETest node name args in
         ROk (if negated then ENot t else t) r3
-    | _ => RErr
+    | _ => RErr ts1
     end;
 |}.
 
@@ -415,7 +415,7 @@ Definition parse_expr (ts : list tok) : pres expr :=
   let n := (40 * (length ts + 2))%nat in
   match p_cond (kit_of n) ts with
   | ROk e [] => ROk e []
-  | ROk _ _ => RErr
+  | ROk _ rest => RErr rest
   | x => x
   end.
 
@@ -423,13 +423,13 @@ Definition parse_expr (ts : list tok) : pres expr :=
 Definition parse_print (ts : list tok) : pres expr :=
   let n := (40 * (length ts + 2))%nat in
   match ts with
-  | [] => RErr
+  | [] => RErr []
   | _ =>
       match p_cond (kit_of n) ts with
       | ROk e r =>
           match p_tuple_rest (kit_of n) [e] false r with
           | ROk e' [] => ROk e' []
-          | ROk _ _ => RErr
+          | ROk _ rest => RErr rest
           | x => x
           end
       | x => x
